@@ -29,3 +29,6 @@ pub use build_info::BUILD_INFO;
 pub use conductor::Conductor;
 pub use config::Config;
 pub use metrics::Metrics;
+
+#[cfg(feature = "verif")]
+pub mod verif;
